@@ -38,16 +38,27 @@ var importSeams = map[string][2]string{
 
 var yieldReceivers = map[string]bool{"nodeLoc": true, "itemLoc": true, "node": true}
 
+// T7: lock-protected fields whose accesses are reported to the scheduler's
+// lock-discipline check, per struct type.
+var guardedFields = map[string]map[string]bool{
+	"rootNodeLoc": {"refs": true, "chainedCollection": true, "chainedRootNodeLoc": true, "superseded": true},
+}
+
+// allocators (re)initialise objects that are not shared yet: not instrumented,
+// and their result resets what is known about the object.
+var allocatorFuncs = map[string]bool{"mkRootNodeLoc": true, "mkRootNodeLocVerifOrig": true, "freeRootNodeLoc": true}
+
 type stats struct {
-	Imports, GoStmts, ChanTypes, MakeChans, Sends, Recvs, Closes, RangeChans, Yields, MapRanges, CASHooks int
-	Unsupported                                                                                           []string
+	Imports, GoStmts, ChanTypes, MakeChans, Sends, Recvs, Closes, RangeChans, Yields, MapRanges, CASHooks, Accesses int
+	Unsupported                                                                                                     []string
 }
 
 type rewriter struct {
-	fset *token.FileSet
-	info *types.Info
-	st   *stats
-	tmp  int
+	noGuard bool // current file is exempt from T7 (the introspection file reads without locks by design)
+	fset    *token.FileSet
+	info    *types.Info
+	st      *stats
+	tmp     int
 }
 
 func main() {
@@ -103,6 +114,7 @@ func main() {
 	rw := &rewriter{fset: fset, info: info, st: st}
 	replace := map[string]string{}
 	for i, f := range files {
+		rw.noGuard = strings.HasPrefix(names[i], "zz_verif_")
 		rw.file(f, !*noYield)
 		var buf bytes.Buffer
 		if err := format.Node(&buf, fset, f); err != nil {
@@ -197,11 +209,15 @@ func (rw *rewriter) file(f *ast.File, yields bool) {
 	}
 	// T6 must run before bodies are rewritten (it only renames)
 	rw.casHook(f)
+	rw.allocHook(f)
 	// statements and expressions
 	for _, d := range f.Decls {
 		switch d := d.(type) {
 		case *ast.FuncDecl:
 			if d.Body != nil {
+				if !allocatorFuncs[d.Name.Name] && !rw.noGuard {
+					rw.guardBlock(d.Body)
+				}
 				d.Body = rw.block(d.Body)
 				if yields && d.Recv != nil && len(d.Recv.List) == 1 && yieldReceivers[recvBase(d.Recv.List[0].Type)] {
 					call := &ast.ExprStmt{X: &ast.CallExpr{Fun: sel("vsched", "Yield"),
@@ -254,6 +270,107 @@ func recvBase(t ast.Expr) string {
 	}
 }
 
+// guardedAccesses returns the (X, field) pairs of guarded-field selectors
+// inside n (not descending into function literals or nested blocks).
+func (rw *rewriter) guardedAccesses(n ast.Node) [][2]interface{} {
+	var out [][2]interface{}
+	ast.Inspect(n, func(x ast.Node) bool {
+		switch y := x.(type) {
+		case *ast.FuncLit, *ast.BlockStmt:
+			return x == n
+		case *ast.SelectorExpr:
+			tv, ok := rw.info.Types[y.X]
+			if !ok || tv.Type == nil {
+				return true
+			}
+			t := tv.Type
+			if p, ok := t.(*types.Pointer); ok {
+				t = p.Elem()
+			}
+			nt, ok := t.(*types.Named)
+			if !ok {
+				return true
+			}
+			if fs := guardedFields[nt.Obj().Name()]; fs != nil && fs[y.Sel.Name] && !hasCall(y.X, rw.info) {
+				if _, isPtr := tv.Type.(*types.Pointer); isPtr {
+					out = append(out, [2]interface{}{y.X, y.Sel.Name})
+				}
+			}
+		}
+		return true
+	})
+	return out
+}
+
+func headerOf(s ast.Stmt) []ast.Node {
+	switch x := s.(type) {
+	case *ast.IfStmt:
+		return []ast.Node{x.Init, x.Cond}
+	case *ast.ForStmt:
+		return []ast.Node{x.Init, x.Cond}
+	case *ast.SwitchStmt:
+		return []ast.Node{x.Init, x.Tag}
+	case *ast.RangeStmt:
+		return []ast.Node{x.X}
+	case *ast.BlockStmt, *ast.LabeledStmt, *ast.SelectStmt, *ast.TypeSwitchStmt, *ast.CaseClause:
+		return nil
+	default:
+		return []ast.Node{s}
+	}
+}
+
+// guardBlock inserts vsched.Access(X, "field") before every statement that
+// touches a guarded field (T7), recursively.
+func (rw *rewriter) guardBlock(b *ast.BlockStmt) {
+	if b == nil {
+		return
+	}
+	var out []ast.Stmt
+	for _, s := range b.List {
+		seen := map[string]bool{}
+		for _, h := range headerOf(s) {
+			if h == nil || (fmt.Sprintf("%v", h) == "<nil>") {
+				continue
+			}
+			for _, a := range rw.guardedAccesses(h) {
+				var buf bytes.Buffer
+				format.Node(&buf, rw.fset, a[0].(ast.Expr))
+				key := buf.String() + "." + a[1].(string)
+				if seen[key] {
+					continue
+				}
+				seen[key] = true
+				x, err := parser.ParseExpr(buf.String())
+				if err != nil {
+					continue
+				}
+				out = append(out, &ast.ExprStmt{X: &ast.CallExpr{Fun: sel("vsched", "Access"),
+					Args: []ast.Expr{x, &ast.BasicLit{Kind: token.STRING, Value: "\"" + a[1].(string) + "\""}}}})
+				rw.st.Accesses++
+			}
+		}
+		out = append(out, s)
+		// nested blocks
+		ast.Inspect(s, func(n ast.Node) bool {
+			switch y := n.(type) {
+			case *ast.FuncLit:
+				rw.guardBlock(y.Body)
+				return false
+			case *ast.BlockStmt:
+				rw.guardBlock(y)
+				return false
+			case *ast.CaseClause:
+				bb := &ast.BlockStmt{List: y.Body}
+				rw.guardBlock(bb)
+				y.Body = bb.List
+				return false
+			}
+			return true
+		})
+	}
+	b.List = out
+}
+
 // casHook renames method rootCAS of Collection to rootCASVerifOrig and adds a
 // wrapper that reports successful publications to the scheduler's event log.
 func (rw *rewriter) casHook(f *ast.File) {
@@ -293,6 +410,36 @@ func (rw *rewriter) casHook(f *ast.File) {
 		fd.Name = ast.NewIdent("rootCASVerifOrig")
 		f.Decls = append(f.Decls, wrapper)
 		rw.st.CASHooks++
+		return
+	}
+}
+
+// allocHook wraps mkRootNodeLoc so that the lock-discipline state of a
+// (re)allocated version handle starts afresh.
+func (rw *rewriter) allocHook(f *ast.File) {
+	for _, d := range f.Decls {
+		fd, ok := d.(*ast.FuncDecl)
+		if !ok || fd.Recv == nil || fd.Name.Name != "mkRootNodeLoc" || fd.Type.Results == nil || len(fd.Type.Results.List) != 1 || len(fd.Recv.List[0].Names) != 1 {
+			continue
+		}
+		var argNames []ast.Expr
+		for _, p := range fd.Type.Params.List {
+			for _, n := range p.Names {
+				argNames = append(argNames, ast.NewIdent(n.Name))
+			}
+		}
+		recvName := fd.Recv.List[0].Names[0].Name
+		wrapper := &ast.FuncDecl{
+			Recv: fd.Recv, Name: ast.NewIdent("mkRootNodeLoc"), Type: fd.Type,
+			Body: &ast.BlockStmt{List: []ast.Stmt{
+				&ast.AssignStmt{Lhs: []ast.Expr{ast.NewIdent("_vr")}, Tok: token.DEFINE,
+					Rhs: []ast.Expr{&ast.CallExpr{Fun: &ast.SelectorExpr{X: ast.NewIdent(recvName), Sel: ast.NewIdent("mkRootNodeLocVerifOrig")}, Args: argNames}}},
+				&ast.ExprStmt{X: &ast.CallExpr{Fun: sel("vsched", "AccessReset"), Args: []ast.Expr{ast.NewIdent("_vr")}}},
+				&ast.ReturnStmt{Results: []ast.Expr{ast.NewIdent("_vr")}},
+			}},
+		}
+		fd.Name = ast.NewIdent("mkRootNodeLocVerifOrig")
+		f.Decls = append(f.Decls, wrapper)
 		return
 	}
 }
